@@ -239,6 +239,13 @@ def holdsSched (start : Nat) (specs : List Spec) (calls : List Call) (res : Res)
       | .running => false
       | _ => true)
 
+/-- the message part of the monitor: the delivered sequence is exactly what was handed to the
+    states (in state order), then what is still buffered (`left` messages), then what found no
+    live handler — nothing lost, duplicated, reordered or invented. -/
+def holdsMsgs (delivered handed : List Nat) (left : Nat) (dropped : List Nat) : Bool :=
+  decide (delivered = handed ++ ((delivered.drop handed.length).take left) ++ dropped)
+  && decide (handed.length + left + dropped.length = delivered.length)
+
 def holds (start : Nat) (specs : List Spec) (evs : List Ev) (o : Obs) : Bool :=
   holdsSched start specs o.calls o.res
   && (match o.res with
@@ -251,7 +258,6 @@ def holds (start : Nat) (specs : List Spec) (evs : List Ev) (o : Obs) : Bool :=
         (match r.initH with | some h => decide (t ≤ h) && decide (r.entryH ≤ h) | none => false))
       o.recs (0 :: (entries start specs).tail) (thresholds start specs)
   -- messages: FIFO, none lost, none duplicated, none invented
-  && (let nd := removeAll (delivered evs) o.dropped
-      decide ((o.recs.map (·.msgs)).flatten = nd.take (nd.length - o.left)) && decide (o.left ≤ nd.length))
+  && holdsMsgs (delivered evs) (o.recs.map (·.msgs)).flatten o.left o.dropped
 
 end KeepVerif.C14
